@@ -92,6 +92,10 @@ def translate(text, w):
         if mn == "movzx" and not (ops[0] in REG and REG[ops[0]][1] == 32 and "PTR" in ops[1]):
             raise Unsupported(text)
         return "mov %s %s" % (operand(ops[0], w), operand(ops[1], w))
+    if mn == "xor" and len(ops) == 2 and ops[0] == ops[1] and ops[0] in REG and REG[ops[0]][1] in (32, 64):
+        # the zeroing idiom: the register (all 64 bits) becomes 0.  It also writes the flags, which no instruction
+        # of an arithmetic form reads (the subset of X86.v has no flag consumer; branches are separate templates)
+        return "mov %s i0" % operand(ops[0], w)
     if mn in ("add", "sub") and len(ops) == 2:
         return "%s %s %s" % (mn, operand(ops[0], w), operand(ops[1], w))
     if mn in ("inc", "dec") and len(ops) == 1:
@@ -352,6 +356,7 @@ def frame_of(prologue, epilogue, term_rel):
     if not m or pro[n + 1:] != ["mov rbx,rdi", "mov rbp,rsi"]:
         raise Unsupported("prologue: " + " ; ".join(pro))
     sub = num(m.group(1))
+    epi = ["mov eax,0x0" if e == "xor eax,eax" else e for e in epi]      # the zeroing idiom for the return value 0
     want = ["mov eax,0x1", None, "mov eax,0x0", "add rsp,%s" % hex(sub)] + ["pop " + r for r in reversed(pushed)] + ["ret"]
     if len(epi) != len(want) or any(w is not None and w != e for w, e in zip(want, epi)):
         raise Unsupported("epilogue: " + " ; ".join(epi))
